@@ -106,6 +106,20 @@ pub struct Exec<'a> {
 	pub commits_at_open: usize,
 	quiet_open: bool,
 	track_records: bool,
+	pub locks_used: bool,
+	/// Keys written by transactions that were committed while dereferencing a held tree: the
+	/// whole transaction is postponed behind later ones (known C11 finding).
+	pub deferral_victims: std::collections::HashSet<(u8, usize)>,
+	pub victim_ctx: bool,
+	/// Tree columns for which a crash lost a commit that had claimed value-table slots.
+	pub claimed_leak: std::collections::HashSet<u8>,
+	pub claim_ctx: bool,
+	/// every accepted transaction, index i holds commit i+1
+	pub tx_log: Vec<Vec<(u8, TxOp)>>,
+	pub leak_expected: bool,
+	pub deferral_happened: bool,
+	/// per accepted commit since the last open: (all keys it names, tree keys it dereferences)
+	pub commit_keys: Vec<(Vec<(u8, usize)>, Vec<(u8, usize)>)>,
 }
 
 #[derive(Clone, Debug)]
@@ -125,6 +139,7 @@ pub fn map_property(scenario: &str) -> &'static str {
 		"rc" => "C07",
 		"reindex" => "C09",
 		"tree" => "C10",
+		"treelock" => "C11",
 		"crash" => "C02",
 		"drop" => "C03",
 		"power" => "C12",
@@ -210,6 +225,15 @@ impl<'a> Exec<'a> {
 			commits_at_open: 0,
 			quiet_open: false,
 			track_records: cfg.scenario == "logfuzz",
+			locks_used: false,
+			deferral_victims: Default::default(),
+			victim_ctx: false,
+			claimed_leak: Default::default(),
+			claim_ctx: false,
+			tx_log: Vec::new(),
+			leak_expected: false,
+			deferral_happened: false,
+			commit_keys: Vec::new(),
 		}
 	}
 
@@ -229,10 +253,16 @@ impl<'a> Exec<'a> {
 	}
 
 	fn violation(&mut self, prop: &str, class: &str, detail: String) {
-		let (prop, class) = if self.reject_ctx {
+		let (prop, class) = if (self.victim_ctx || self.deferral_happened) && !class.starts_with("locked-tree") {
+			("C11", format!("after-deferral:{class}"))
+		} else if self.reject_ctx {
 			("C08", format!("visible-after-reject:{class}"))
 		} else if self.cfg.scenario == "admin" && (prop == "C02" || prop == "C03") {
 			("C17", format!("after-admin:{class}"))
+		} else if self.claim_ctx {
+			("C14", format!("claimed-slots-leaked-by-crash:{class}"))
+		} else if self.leak_expected && (prop == "C14" || class == "entries-changed" || class == "entry-count") {
+			("C08", format!("tree-assembly-side-effect:{class}"))
 		} else if self.cfg.scenario == "reject" && prop == "C14" {
 			("C08", format!("slot-leaked:{class}"))
 		} else {
@@ -274,6 +304,7 @@ impl<'a> Exec<'a> {
 			Ok(db) => {
 				self.db = Some(db);
 				self.log_records.clear();
+				self.commit_keys.clear();
 				self.commit_records.clear();
 				self.commits_at_open = self.n();
 				true
@@ -387,6 +418,32 @@ impl<'a> Exec<'a> {
 	fn close_db(&mut self) {
 		self.drop_iters();
 		crate::treeops::release_all(self);
+		// Deferral (C11) can re-queue commits forever (two commits that each dereference a tree
+		// and insert a tree while that tree was held defer to one another); Drop would then spin
+		// in its `while process_commits()` loop. Detect that with a bounded drain first.
+		if self.db.is_some() && self.locks_used {
+			let q0 = self.counts().0;
+			let mut budget = q0 * 6 + 16;
+			while self.counts().0 > 0 && budget > 0 {
+				budget -= 1;
+				let q = self.counts().0;
+				if self.db().verif_process_commits().is_err() {
+					break
+				}
+				if self.counts().0 == q {
+					self.deferral_happened = true;
+				}
+			}
+			if self.counts().0 > 0 && budget == 0 {
+				self.violation(
+					"C11",
+					"deferral-livelock",
+					format!("after all tree locks were released, {} queued commit(s) keep being deferred: the postponed removal never completes", self.counts().0),
+				);
+				self.abandon_db();
+				return
+			}
+		}
 		// Harness constraint (single-threaded stepping only): Drop enacts up to three more log
 		// files and waits for a cleanup worker when more than 4 logs are dirty; there is no
 		// cleanup worker here, so keep the count low before dropping.
@@ -517,7 +574,28 @@ impl<'a> Exec<'a> {
 		let got_size = self.db().get_size(col, &key);
 		self.stats.reads_checked += 1;
 		let all_logged = self.counts().0 == 0;
-		let prop = self.map_prop;
+		let victim = self.deferral_victims.contains(&(col, k));
+		let prop = if victim { "C11" } else { self.map_prop };
+		if victim {
+			self.victim_ctx = true;
+		}
+		self.check_key_inner(col, k, kind, key, expect, got, got_size, all_logged, prop);
+		self.victim_ctx = false;
+	}
+
+	#[allow(clippy::too_many_arguments)]
+	fn check_key_inner(
+		&mut self,
+		col: u8,
+		k: usize,
+		kind: ColKind,
+		key: Vec<u8>,
+		expect: Option<(Bytes, u32)>,
+		got: parity_db::Result<Option<Vec<u8>>>,
+		got_size: parity_db::Result<Option<u32>>,
+		all_logged: bool,
+		prop: &str,
+	) {
 		match got {
 			Err(e) => self.violation(prop, "read-error", format!("get(col {col}, key#{k}) -> Err({e})")),
 			Ok(got) => {
@@ -627,6 +705,12 @@ impl<'a> Exec<'a> {
 	}
 
 	fn check_btree_full_iteration(&mut self, col: u8) {
+		self.victim_ctx = self.deferral_victims.iter().any(|(c, _)| *c == col);
+		self.check_btree_full_iteration_inner(col);
+		self.victim_ctx = false;
+	}
+
+	fn check_btree_full_iteration_inner(&mut self, col: u8) {
 		let prop = if self.map_prop == "C04" { "C04" } else { self.map_prop };
 		let expect: Vec<(Vec<u8>, Bytes)> = match &self.cur[col as usize] {
 			ColModel::Kv(m) => m.map.iter().map(|(k, (v, _))| (k.clone(), v.clone())).collect(),
@@ -825,7 +909,15 @@ impl<'a> Exec<'a> {
 		let (sizes_before, queued_before) = if track { (self.log_sizes(), self.counts().0) } else { (Vec::new(), 0) };
 		let r = match s {
 			Stage::ProcessCommits => {
+				let q0 = self.counts().0;
 				let r = self.db().verif_process_commits();
+				if let Ok(true) = r {
+					if q0 > 0 && self.counts().0 == q0 {
+						// popped and re-queued: the commit was postponed (tree reader lock)
+						self.deferral_happened = true;
+						self.stats.probe("commit_postponed");
+					}
+				}
 				if track {
 					self.note_appended_record(&sizes_before, queued_before, true);
 				}
@@ -900,6 +992,8 @@ impl<'a> Exec<'a> {
 
 	pub fn drain(&mut self) {
 		let mut guard = 0;
+		let mut stalled = 0usize;
+		let mut deferred_only = false;
 		loop {
 			guard += 1;
 			if guard > 4000 {
@@ -907,8 +1001,15 @@ impl<'a> Exec<'a> {
 				break
 			}
 			let c = self.counts();
-			if c.0 > 0 {
+			if c.0 > 0 && !deferred_only {
 				self.step(Stage::ProcessCommits);
+				if crate::treeops::any_locked(self) {
+					// a commit that dereferences a locked tree is re-queued, not logged
+					stalled = if self.counts().0 >= c.0 { stalled + 1 } else { 0 };
+					if stalled > c.0 + 1 {
+						deferred_only = true;
+					}
+				}
 				continue
 			}
 			match self.run_stage(Stage::ProcessReindex) {
@@ -927,7 +1028,7 @@ impl<'a> Exec<'a> {
 			let enacted = matches!(self.run_stage(Stage::EnactAll), Ok(true));
 			let c = self.counts();
 			// reindex may have become due after enacting
-			if enacted || c.2 || c.0 > 0 {
+			if enacted || c.2 || (c.0 > 0 && !deferred_only) {
 				continue
 			}
 			if c.6 != 0 && c.6 <= c.5 {
@@ -938,6 +1039,11 @@ impl<'a> Exec<'a> {
 				continue
 			}
 			break
+		}
+		if deferred_only {
+			// not a drained point: deferred commits are still queued
+			self.full_sweep();
+			return
 		}
 		self.stats.drained_points += 1;
 		self.at_drained_point();
@@ -959,6 +1065,9 @@ impl<'a> Exec<'a> {
 		for c in 0..self.ncols {
 			let kind = self.col_kinds[c];
 			if !kind.is_hash_kv() {
+				continue
+			}
+			if self.deferral_victims.iter().any(|(vc, _)| *vc as usize == c) {
 				continue
 			}
 			let mut expect: Vec<(u64, usize, u32)> = match &self.cur[c] {
@@ -999,14 +1108,16 @@ impl<'a> Exec<'a> {
 	}
 
 	fn structural_check(&mut self) {
-		if crate::treeops::any_locked(self) {
+		if crate::treeops::any_locked(self) || !self.deferral_victims.is_empty() {
 			return
 		}
 		self.stats.structural_checks += 1;
 		let live = self.live.clone();
 		let findings = simdisk::muted(|| structural::check_dir(&live, self));
 		for f in findings {
+			self.claim_ctx = self.claimed_leak.iter().any(|c| f.1.starts_with(&format!("col {c} ")) || f.1.starts_with(&format!("col {c}:")));
 			self.violation("C14", &f.0, f.1);
+			self.claim_ctx = false;
 		}
 	}
 
@@ -1208,6 +1319,19 @@ impl<'a> Exec<'a> {
 	}
 
 	fn adopt(&mut self, j: usize) {
+		// commits lost by this crash that had claimed slots in a tree column at commit time
+		for (i, tx) in self.tx_log.iter().enumerate() {
+			if i + 1 > j {
+				for (c, op) in tx {
+					if let TxOp::InsertTree(_, s) = op {
+						if s.children.iter().any(|c| matches!(c, ChildSpec::New(_))) {
+							self.claimed_leak.insert(*c);
+						}
+					}
+				}
+			}
+		}
+		self.tx_log.truncate(j);
 		self.hist.truncate(j + 1);
 		self.cur = (*self.hist[j]).clone();
 		self.n_synced = j;
@@ -1517,10 +1641,27 @@ impl<'a> Exec<'a> {
 		self.stats.commits += 1;
 		let tx = &self.sanitise(tx)[..];
 		let dbtx = self.to_db_tx(tx);
+		let defers = tx.iter().any(|(c, op)| match op {
+			TxOp::DerefTree(k) => self.tree_rt.get(*c as usize).map_or(false, |r| r.locks.contains_key(k)),
+			_ => false,
+		});
+		if defers {
+			// keys written by a transaction that will be postponed behind later ones
+			for (c, op) in tx {
+				match op {
+					TxOp::Set(k, _) | TxOp::Del(k) | TxOp::Ref(k) | TxOp::InsertTree(k, _) | TxOp::RefTree(k) | TxOp::DerefTree(k) => {
+						self.deferral_victims.insert((*c, *k));
+					},
+					_ => {},
+				}
+			}
+			self.stats.probe("commit_postponed_with_other_writes");
+		}
 		match self.db().commit_changes(dbtx) {
 			Ok(()) => {
 				self.apply_to_model(tx);
 				self.hist.push(Arc::new(self.cur.clone()));
+				self.tx_log.push(tx.to_vec());
 				let touched: Vec<(u8, usize)> = tx
 					.iter()
 					.filter_map(|(c, op)| match op {
@@ -1529,6 +1670,16 @@ impl<'a> Exec<'a> {
 					})
 					.collect();
 				self.recent.push(touched);
+				let all: Vec<(u8, usize)> = tx
+					.iter()
+					.filter_map(|(c, op)| match op {
+						TxOp::Set(k, _) | TxOp::Del(k) | TxOp::Ref(k) | TxOp::InsertTree(k, _) | TxOp::RefTree(k) | TxOp::DerefTree(k) => Some((*c, *k)),
+						_ => None,
+					})
+					.collect();
+				let derefs: Vec<(u8, usize)> =
+					tx.iter().filter_map(|(c, op)| if let TxOp::DerefTree(k) = op { Some((*c, *k)) } else { None }).collect();
+				self.commit_keys.push((all, derefs));
 				crate::treeops::after_commit(self, tx);
 			},
 			Err(e) => {
@@ -1554,14 +1705,67 @@ impl<'a> Exec<'a> {
 			.collect()
 	}
 
+	/// Index of the first operation of `tx` that the database must refuse, judged against what
+	/// is visible in the database right now.
+	fn first_invalid(&self, tx: &[(u8, TxOp)]) -> Option<usize> {
+		fn oversize(s: &TreeSpec) -> bool {
+			s.children.len() > 255 || s.children.iter().any(|c| matches!(c, ChildSpec::New(n) if oversize(n)))
+		}
+		for (i, (c, op)) in tx.iter().enumerate() {
+			if (*c as usize) >= self.col_kinds.len() {
+				continue
+			}
+			let kind = self.col_kinds[*c as usize];
+			let bad = match (kind, op) {
+				(ColKind::Tree { .. }, TxOp::Set(..) | TxOp::Del(_) | TxOp::Ref(_) | TxOp::RawRef(_)) => true,
+				(ColKind::Tree { append_only, rc_roots, .. }, TxOp::RefTree(_)) => !append_only && !rc_roots,
+				(ColKind::Tree { append_only, .. }, TxOp::DerefTree(k)) => {
+					let key = &self.col_cfgs[*c as usize].keys[*k];
+					append_only || matches!(self.db().get_tree(*c, key), Ok(None))
+				},
+				(ColKind::Tree { .. }, TxOp::InsertTree(_, s)) => oversize(s),
+				(_, TxOp::InsertTree(..) | TxOp::RefTree(_) | TxOp::DerefTree(_)) => true,
+				(k, TxOp::Ref(_) | TxOp::RawRef(_)) => !k.is_rc(),
+				_ => false,
+			};
+			if bad {
+				return Some(i)
+			}
+		}
+		None
+	}
+
 	fn bad_commit(&mut self, tx: &[(u8, TxOp)], bg_err: bool) {
 		self.stats.probe("bad_commits");
 		if crate::treeops::any_locked(self) {
 			return
 		}
+		let first_bad = self.first_invalid(tx);
+		if first_bad.is_none() && !bg_err {
+			// nothing invalid left in it (e.g. after minimisation): an ordinary commit
+			self.commit(tx, true);
+			return
+		}
+		// Side effects taken while assembling tree operations that precede the invalid one
+		// (claimed slots, queued-dereference counters) are not rolled back: known finding.
+		let upto = if bg_err { tx.len() } else { first_bad.unwrap_or(0) };
+		let assembly_side_effect =
+			tx[..upto].iter().any(|(c, op)| {
+				self.col_kinds.get(*c as usize).map_or(false, |k| k.is_tree()) &&
+					match op {
+						TxOp::InsertTree(_, s) => s.children.iter().any(|c| matches!(c, ChildSpec::New(_))),
+						TxOp::DerefTree(_) => true,
+						_ => false,
+					}
+			});
+		if assembly_side_effect {
+			self.stats.probe("reject_after_tree_assembly_side_effect");
+		}
 		let before = self.entry_counts();
 		if bg_err {
 			self.db().verif_store_err(parity_db::Error::InvalidInput("injected background error".into()));
+			// shutdown in error state reclaims logs without flushing tables: outside C12's claim
+			simdisk::with(|d| d.monitor = false);
 		}
 		let dbtx = if bg_err { let t = self.sanitise(tx); self.to_db_tx(&t) } else { self.to_db_tx(tx) };
 		let has_oversize = tx.iter().any(|(_, op)| matches!(op, TxOp::InsertTree(_, s) if s.children.len() > 255));
@@ -1582,6 +1786,9 @@ impl<'a> Exec<'a> {
 		self.full_sweep();
 		self.reject_ctx = false;
 		let after = self.entry_counts();
+		if assembly_side_effect {
+			self.leak_expected = true;
+		}
 		for c in 0..self.ncols {
 			if let (Some(b), Some(a)) = (before[c], after[c]) {
 				if a != b {
@@ -1658,6 +1865,7 @@ impl<'a> Exec<'a> {
 	pub fn finish(&mut self) {
 		if self.db.is_some() && self.viol.is_empty() {
 			self.op_index += 1;
+			crate::treeops::release_all(self);
 			self.full_sweep();
 			self.drain();
 			// final clean restart: everything must persist (C03)
@@ -1750,6 +1958,7 @@ impl<'a> Exec<'a> {
 	pub fn collapse_history(&mut self) {
 		let last = self.hist[self.hist.len() - 1].clone();
 		self.hist = vec![last];
+		self.tx_log.clear();
 		self.n_synced = 0;
 		self.commits_at_open = 0;
 		self.commit_records.clear();
